@@ -5,12 +5,6 @@ From Coq Require Import List ZArith Bool Arith Lia.
 From Krrood Require Import Eql.Syntax Eql.Sat Eql.Eval Eql.EvalProofs.
 Import ListNotations.
 
-Definition val_eq_dec (v w : val) : {v = w} + {v <> w}.
-Proof. decide equality; try apply Z.eq_dec; apply (list_eq_dec Z.eq_dec). Defined.
-Definition val_eqb (v w : val) : bool := if val_eq_dec v w then true else false.
-Lemma val_eqb_eq v w : val_eqb v w = true <-> v = w.
-Proof. unfold val_eqb. destruct (val_eq_dec v w); split; congruence. Qed.
-
 Definition extendsb (rho : asg) (b : binds) : bool :=
   forallb (fun p : var * val => match lookup b (fst p) with Some v => val_eqb (rho (fst p)) v | None => true end) b.
 
@@ -37,11 +31,18 @@ Fixpoint ufree (c : cond) : bool :=
   | CAnd l r | CElseIf l r => ufree l && ufree r
   | CUnion _ _ => false
   | CNot c => ufree c
+  | CExists _ _ | CForAll _ _ => false
   end.
+
+Lemma ufree_qfree c : ufree c = true -> qfree c = true.
+Proof.
+  induction c as [op l r|l IHl r IHr|l IHl r IHr|l IHl r IHr|c IH|e c IH|y c IH]; simpl; intros H; auto;
+    try discriminate; apply andb_prop in H as [Hl Hr]; now rewrite IHl, IHr.
+Qed.
 
 Lemma ufree_snd_ok c : ufree c = true -> forall pol, snd_ok pol c = true.
 Proof.
-  induction c as [op l r|l IHl r IHr|l IHl r IHr|l IHl r IHr|c IH]; simpl; intros H pol; auto;
+  induction c as [op l r|l IHl r IHr|l IHl r IHr|l IHl r IHr|c IH|e c IH|y c IH]; simpl; intros H pol; auto;
     try (apply andb_prop in H as [Hl Hr]; rewrite IHl, IHr; auto); discriminate.
 Qed.
 
@@ -172,9 +173,9 @@ Section Partition.
       + intros p Hp Cp. apply Hmap; auto. apply extendsb_iff. exact Cp. intros; apply Hd, in_or_app; auto.
   Qed.
 
-  Lemma eval_zero c b rho : ~ extends rho b -> cnt (cov rho) (eval W D c b) = 0.
+  Lemma eval_zero c b rho : qfree c = true -> ~ extends rho b -> cnt (cov rho) (eval W D c b) = 0.
   Proof.
-    intros Hn. apply cnt_zero. intros [b' f] Hin. unfold cov. simpl. apply extendsb_false.
+    intros Q Hn. apply cnt_zero. intros [b' f] Hin. unfold cov. simpl. apply extendsb_false.
     intros Hx. apply Hn. eapply eval_mono; eauto.
   Qed.
 
@@ -183,25 +184,24 @@ Section Partition.
     extends rho b -> (forall x, In x (cond_vars c) -> In (rho x) (D x)) ->
     cnt (cov rho) (eval W D c b) = 1.
   Proof.
-    induction c as [op l r|l IHl r IHr|l IHl r IHr|l IHl r IHr|c IH]; simpl; intros U b rho He Hd.
+    induction c as [op l r|l IHl r IHr|l IHl r IHr|l IHl r IHr|c IH|e c IH|y c IH]; simpl; intros U b rho He Hd; try discriminate.
     - apply ev_cmp_partition; auto.
     - apply andb_prop in U as [Ul Ur]. apply cnt_flat_map_eq1 with (p := cov rho).
       + apply IHl; auto. intros; apply Hd, in_or_app; auto.
       + intros [b1 f1] Hp Cp. simpl. destruct f1.
         * unfold cnt, cov in *. simpl in *. now rewrite Cp.
-        * apply eval_zero. apply extendsb_false. exact Cp.
+        * apply eval_zero; [now apply ufree_qfree|]. apply extendsb_false. exact Cp.
       + intros [b1 f1] Hp Cp. simpl. destruct f1.
         * unfold cnt, cov in *. simpl in *. now rewrite Cp.
         * apply IHr; auto. apply extendsb_iff. exact Cp. intros; apply Hd, in_or_app; auto.
     - apply andb_prop in U as [Ul Ur]. apply cnt_flat_map_eq1 with (p := cov rho).
       + apply IHl; auto. intros; apply Hd, in_or_app; auto.
       + intros [b1 f1] Hp Cp. simpl. destruct f1.
-        * apply eval_zero. apply extendsb_false. exact Cp.
+        * apply eval_zero; [now apply ufree_qfree|]. apply extendsb_false. exact Cp.
         * unfold cnt, cov in *. simpl in *. now rewrite Cp.
       + intros [b1 f1] Hp Cp. simpl. destruct f1.
         * apply IHr; auto. apply extendsb_iff. exact Cp. intros; apply Hd, in_or_app; auto.
         * unfold cnt, cov in *. simpl in *. now rewrite Cp.
-    - discriminate.
     - rewrite <- (IH U b rho He Hd). apply cnt_map. intros p. reflexivity.
   Qed.
 
@@ -211,10 +211,10 @@ Section Partition.
 
   Theorem eval_exactly_once c : ufree c = true -> forall b rho,
     extends rho b -> (forall x, In x (cond_vars c) -> In (rho x) (D x)) ->
-    cnt (covt rho) (eval W D c b) = if sat W rho c then 1 else 0.
+    cnt (covt rho) (eval W D c b) = if sat W D rho c then 1 else 0.
   Proof.
     intros U b rho He Hd. pose proof (eval_partition c U b rho He Hd) as H1.
-    assert (Hflag : forall r, In r (eval W D c b) -> cov rho r = true -> snd r = negb (sat W rho c)).
+    assert (Hflag : forall r, In r (eval W D c b) -> cov rho r = true -> snd r = negb (sat W D rho c)).
     { intros [b' f] Hin Hc. simpl. unfold cov in Hc. simpl in Hc. apply extendsb_iff in Hc.
       destruct f.
       - rewrite (eval_sound W D c false b b' (ufree_snd_ok c U false) Hin rho Hc). reflexivity.
@@ -227,7 +227,7 @@ Section Partition.
         { apply (cnt_zero (covt rho)). intros a Ha. unfold covt. destruct (cov rho a) eqn:Ca; auto.
           exfalso. assert (In a (filter (cov rho) l)) by (apply filter_In; auto).
           destruct (filter (cov rho) l); [contradiction|discriminate]. }
-        destruct (sat W rho c); simpl; lia.
+        destruct (sat W D rho c); simpl; lia.
       + apply IHl; auto.
   Qed.
 End Partition.
@@ -241,11 +241,12 @@ Fixpoint nnf (c : cond) : bool :=
   | CAnd l r => nnf l && nnf r
   | CElseIf l r => nnf l && nnf r && same_vars (cond_vars l) (cond_vars r)
   | CUnion _ _ => false
+  | CExists _ _ | CForAll _ _ => false
   end.
 
 Lemma nnf_ufree c : nnf c = true -> ufree c = true.
 Proof.
-  induction c as [op l r|l IHl r IHr|l IHl r IHr|l IHl r IHr|c IH]; simpl; intros H; auto.
+  induction c as [op l r|l IHl r IHr|l IHl r IHr|l IHl r IHr|c IH|e c IH|y c IH]; simpl; intros H; auto.
   - apply andb_prop in H as [Hl Hr]. now rewrite IHl, IHr.
   - apply andb_prop in H as [H _]. apply andb_prop in H as [Hl Hr]. now rewrite IHl, IHr.
   - destruct c; try discriminate. reflexivity.
@@ -303,9 +304,10 @@ Section Total.
     - intros x Hx. eapply bound_mono_opnd; eauto. eapply bound_mono_opnd; eauto.
   Qed.
 
-  Lemma eval_bound_mono c : forall b b' f x, In (b', f) (eval W D c b) -> bound b x = true -> bound b' x = true.
+  Lemma eval_bound_mono c : qfree c = true -> forall b b' f x, In (b', f) (eval W D c b) -> bound b x = true -> bound b' x = true.
   Proof.
-    induction c as [op l r|l IHl r IHr|l IHl r IHr|l IHl r IHr|c IH]; simpl; intros b b' f x Hin Hb.
+    induction c as [op l r|l IHl r IHr|l IHl r IHr|l IHl r IHr|c IH|e c IH|y c IH]; simpl; intros Q b b' f x Hin Hb; try discriminate;
+      try (apply andb_prop in Q as [Ql Qr]; specialize (IHl Ql); specialize (IHr Qr)); try specialize (IH Q).
     - eapply ev_cmp_binds; eauto.
     - apply in_flat_map in Hin as ([b1 f1] & H1 & H2). simpl in H2. destruct f1.
       + destruct H2 as [[= <- <-]|[]]. eauto.
@@ -323,13 +325,13 @@ Section Total.
   Theorem eval_true_total c : nnf c = true -> forall b b',
     In (b', false) (eval W D c b) -> binds_all b' (cond_vars c).
   Proof.
-    induction c as [op l r|l IHl r IHr|l IHl r IHr|l IHl r IHr|c IH]; simpl; intros N b b' Hin.
+    induction c as [op l r|l IHl r IHr|l IHl r IHr|l IHl r IHr|c IH|e c IH|y c IH]; simpl; intros N b b' Hin; try discriminate.
     - eapply ev_cmp_binds; eauto.
     - apply andb_prop in N as [Nl Nr].
       apply in_flat_map in Hin as ([b1 f1] & H1 & H2). simpl in H2. destruct f1.
       + destruct H2 as [[= ]|[]].
       + intros x Hx. apply in_app_or in Hx as [Hx|Hx].
-        * eapply eval_bound_mono; eauto. eapply IHl; eauto.
+        * eapply eval_bound_mono; eauto. apply ufree_qfree, nnf_ufree; auto. eapply IHl; eauto.
         * eapply IHr; eauto.
     - apply andb_prop in N as [N Sv]. apply andb_prop in N as [Nl Nr]. apply andb_prop in Sv as [S1 S2].
       apply in_flat_map in Hin as ([b1 f1] & H1 & H2). simpl in H2. destruct f1.
@@ -337,8 +339,7 @@ Section Total.
         eapply nsubset_In; eauto.
       + destruct H2 as [[= <-]|[]]. intros x Hx. eapply IHl; eauto. apply in_app_or in Hx as [Hx|Hx]; auto.
         eapply nsubset_In; eauto.
-    - discriminate.
-    - destruct c as [op l r| | | |]; try discriminate.
+    - destruct c as [op l r| | | | | |]; try discriminate.
       apply in_map_iff in Hin as ([b1 f1] & [= <- Hf] & H1). simpl in *. eapply ev_cmp_binds; eauto.
   Qed.
 End Total.
